@@ -1,5 +1,6 @@
 /-
-Model driver for the network with difference-logic theories (properties C10, C12, C08); twin of
+Model driver for the network with its theories (linear real arithmetic and the two difference
+logics; properties C10, C12, C08 and the LRA correspondence of tools/checks/lra_probe.py); twin of
 /verif/harness/net.cpp.
 -/
 import OratioModel.Driver.Sat
@@ -20,8 +21,39 @@ def showDl {α : Type} (sh : α → String) (O : DOps α) (t : Dl α) : String :
   let vd := t.varDists.map (fun c => s!" {c.b}={c.src}>{c.dst}:" ++ sh c.dist)
   s!"n={n} d:" ++ String.join ds ++ " p:" ++ String.join ps ++ " c:" ++ String.join cs ++ s!" layers:{t.layers.length} vd:" ++ String.join vd
 
+def insertStr {β : Type} (x : String × β) : List (String × β) → List (String × β)
+  | [] => [x]
+  | y :: t => if x.1 < y.1 then x :: y :: t else y :: insertStr x t
+def sortByKey {β : Type} (l : List (String × β)) : List (String × β) := l.foldr insertStr []
+def insertIdx {β : Type} (x : Nat × β) : List (Nat × β) → List (Nat × β)
+  | [] => [x]
+  | y :: t => if x.1 < y.1 then x :: y :: t else y :: insertIdx x t
+
+/-- dump of the whole `lra_theory` state; twin of `access::lra_str` -/
+def showLra (t : Lra) : String :=
+  let n := t.nVars
+  let vals := (List.range n).map (fun v => " " ++ showIR (t.value v))
+  let bs := (List.range n).map (fun v => " [" ++ showIR (t.lb v) ++ " " ++ showLit (t.lbReason v) ++ " " ++ showIR (t.ub v) ++ " " ++ showLit (t.ubReason v) ++ "]")
+  let tab := t.tableau.map (fun r => s!" {r.1}=" ++ showLin r.2 ++ ";")
+  let asr := (t.vAsrts.foldr (fun a acc => insertIdx a acc) []).map (fun a =>
+    s!" {a.1}=" ++ showLit a.2.b ++ s!":x{a.2.x}" ++ (if a.2.o = .leq then "<=" else ">=") ++ showIR a.2.v)
+  let aw := (List.range n).filterMap (fun v => match t.aWatches.getD v [] with
+    | [] => none
+    | w => some (s!" {v}:" ++ ",".intercalate (w.map toString)))
+  let tw := (List.range n).filterMap (fun v => match t.tWatches.getD v [] with
+    | [] => none
+    | w => some (s!" {v}:" ++ ",".intercalate (w.map toString)))
+  let ly := t.layers.reverse.map (fun l => "{" ++ String.join ((l.foldr (fun e acc => insertIdx e acc) []).map (fun e =>
+    s!" {e.1}=" ++ showIR e.2.value ++ " " ++ showLit e.2.reason)) ++ "}")
+  let ex := (sortByKey t.exprs).map (fun e => " \"" ++ e.1 ++ s!"\"={e.2};")
+  let sa := (sortByKey t.sAsrts).map (fun e => " \"" ++ e.1 ++ "\"=" ++ showLit e.2 ++ ";")
+  s!"n={n} v:" ++ String.join vals ++ " b:" ++ String.join bs ++ " t:" ++ String.join tab ++ " a:" ++ String.join asr ++
+    " aw:" ++ String.join aw ++ " tw:" ++ String.join tw ++ s!" layers:{t.layers.length}" ++ String.join ly ++
+    " ex:" ++ String.join ex ++ " sa:" ++ String.join sa
+
 def state (n : Net) : String :=
   " | " ++ showValsS n.sat ++ " | " ++ showSearch n.sat ++ " | idl " ++ showDl showI idlOps n.idl ++ " | rdl " ++ showDl showIRv rdlOps n.rdl ++
+    (if n.lra.nVars > 0 then " | lra " ++ showLra n.lra else "") ++
     (if n.sat.dead then " #dead" else "")
 
 def withLogN (n0 : Net) (r : Option (Bool × Net)) : String × Net :=
@@ -73,6 +105,73 @@ def dlExec {α : Type} (O : DOps α) (sh : α → String) (parseDist : P α)
       if f < t.nVars ∧ to < t.nVars then some (pair (Dl.distance O t f to), n) else none
   | _ => none
 
+/-- an optional `;` between the two expressions of a relation -/
+def linPair : P (Lin × Lin) := do
+  let a ← linexp
+  match (← get) with
+  | ";" :: rest => set rest
+  | _ => pure ()
+  let b ← linexp
+  pure (a, b)
+
+def parseLRel : String → Option LRel
+  | "lt" => some .lt | "leq" => some .leq | "geq" => some .geq | "gt" => some .gt | _ => none
+
+/-- coefficients and constants of a query must be finite and the coefficients non-zero (the
+    C++ arithmetic asserts otherwise) -/
+def linOk (n : Nat) (l : Lin) : Bool :=
+  l.vars.all (fun t => t.1 < n && t.2.den != 0 && t.2.num != 0) && l.known.den != 0
+
+/-- the operations of `lra_theory` -/
+def lraExec (n : Net) (op : String) (args : List String) : Option (String × Net) :=
+  let t := n.lra
+  match op with
+  | "nv" => if args.isEmpty && n.sat.rootLevel then (let (v, n') := n.lraNewVar; some (toString v, n')) else none
+  | "nvl" | "nvlraw" => (runP linexp args).bind fun a =>
+      if !linOk t.nVars a then none
+      else if a.vars.isEmpty || !n.sat.rootLevel then some ("pre", n)
+      -- `new_var(lin)` stores the expression as a row as it is: with a basic variable in it the tableau is
+      -- ill-formed (finding nvl-basic); `nvl` refuses such requests, `nvlraw` passes them on
+      else if op == "nvl" && a.vars.any (fun e => t.isBasic e.1) then some ("pre:basic", n)
+      else match n.lraNewVarLin a with
+        | some (v, n') => some (toString v, n')
+        | none => some ("assert", n)
+  | "lt" | "leq" | "geq" | "gt" | "eq" => (runP linPair args).bind fun (a, b) =>
+      if !(linOk t.nVars a && linOk t.nVars b) then none
+      else if !n.sat.rootLevel then some ("pre", n)
+      else
+        let r := match parseLRel op with
+          | some r => n.lraNewRel r a b
+          | none => n.lraNewEq a b
+        match r with
+        | some (l, n') => some (showLit l, n')
+        | none => some ("assert", n)
+  | "val" => (runP linexp args).bind fun a =>
+      if linOk t.nVars a then some (showIR (t.valueLin a), n) else none
+  | "bounds" => (runP linexp args).bind fun a =>
+      if linOk t.nVars a then
+        let b := t.boundsLin a
+        some (showIR b.1 ++ " " ++ showIR b.2 ++ " " ++ showIR (t.lbLin a) ++ " " ++ showIR (t.ubLin a), n)
+      else none
+  | "eqs" => (runP linPair args).bind fun (a, b) =>
+      if linOk t.nVars a && linOk t.nVars b then some (showB (t.equates a b), n) else none
+  | "setlb" | "setub" | "set" =>
+      (runP (do let x ← nat; let v ← irat; let p ← next; pure (x, v, p)) args).bind fun (x, v, p) =>
+      (parseLit p).bind fun p =>
+        if !(x < t.nVars && inRange n.sat [p] && v.rat.den != 0 && v.inf.den != 0) then none
+        -- the reason must hold and belong to the current decision level (a conflict it takes part in is analysed there)
+        else if n.sat.value p ≠ some true || !n.sat.queue.isEmpty || n.sat.level.getD p.var 0 != n.sat.decisionLevel then some ("pre", n)
+        else
+          let f := if op == "setlb" then Lra.setLb else if op == "setub" then Lra.setUb else Lra.setEq
+          let l0 := n.sat.log.length
+          let (c, n') := n.lraSet f x v p
+          let lg := String.join ((n'.sat.log.drop l0).map (fun c => " L[" ++ " ".intercalate (c.map showLit) ++ "]"))
+          match c with
+          | none => some ("T" ++ lg, n')
+          -- `theory::cnfl` is left non-empty: the theory must not be used further
+          | some c => some ("F C[" ++ " ".intercalate (c.map showLit) ++ "]" ++ lg, { n' with sat := { n'.sat with dead := true } })
+  | _ => none
+
 def liftSat (n : Net) (r : Option (String × Sat)) : Option (String × Net) := r.map fun (o, s) => (o, { n with sat := s })
 
 def exec (n : Net) (toks : List String) : Option (String × Net) :=
@@ -83,6 +182,7 @@ def exec (n : Net) (toks : List String) : Option (String × Net) :=
       dlExec idlOps showI int (·.idl) Net.idlNewVar Net.idlNewDistance Net.idlNewRel n (op.drop 4).toString args
     else if op.startsWith "rdl." then
       dlExec rdlOps showIRv irat (·.rdl) Net.rdlNewVar Net.rdlNewDistance Net.rdlNewRel n (op.drop 4).toString args
+    else if op.startsWith "lra." then lraExec n (op.drop 4).toString args
     else match op, args with
       | "prop", [] => some (withLogN n (n.propagate fuel))
       | "assume", [p] => (parseLit p).bind fun p =>
@@ -102,14 +202,44 @@ def exec (n : Net) (toks : List String) : Option (String × Net) :=
         -- root-level SAT operations are those of the pure SAT driver
         if op == "simp" then none else liftSat n (SatD.exec n.sat toks)
 
-def step (st : Option Net) (line : String) : Option Net × String :=
+/-- driver state: the network and the literals returned so far by the `lra.<relation>` requests of
+    the case.  A token `$k` (`!$k`) of a later operation stands for the k-th of them (its negation). -/
+structure DState where
+  net : Net
+  rets : List Lit
+
+def isRelOp (op : String) : Bool := ["lra.lt", "lra.leq", "lra.eq", "lra.geq", "lra.gt"].contains op
+
+/-- replace the `$k` / `!$k` tokens (k-th returned literal / its negation), the `?j` / `!?j` tokens
+    (positive / negative literal of the `j mod u`-th of the `u` currently unassigned SAT variables,
+    in ascending order) and the `^j` tokens (the LRA variable `n-1-j`, `n` the current number of
+    LRA variables: `^0` is the newest); `none` = no such thing -/
+def resolveRefs (d : DState) (toks : List String) : Option (List String) :=
+  let un := (List.range d.net.sat.nvars).filter (fun v => d.net.sat.vals.getD v none == none)
+  let unassigned (j : Nat) : Option Nat := if un.isEmpty then none else un[j % un.length]?
+  toks.mapM fun tk =>
+    if tk.startsWith "$" then ((tk.drop 1).toString.toNat?.bind (d.rets[·]?)).map showLit
+    else if tk.startsWith "!$" then ((tk.drop 2).toString.toNat?.bind (d.rets[·]?)).map (fun l => showLit l.neg)
+    else if tk.startsWith "?" then ((tk.drop 1).toString.toNat?.bind unassigned).map (fun v => showLit ⟨v, true⟩)
+    else if tk.startsWith "!?" then ((tk.drop 2).toString.toNat?.bind unassigned).map (fun v => showLit ⟨v, false⟩)
+    else if tk.startsWith "^" then (tk.drop 1).toString.toNat?.bind fun j =>
+      if j < d.net.lra.nVars then some (toString (d.net.lra.nVars - 1 - j)) else none
+    else some tk
+
+def step (st : Option DState) (line : String) : Option DState × String :=
   match tokens line with
   | [] => (st, "")
-  | "case" :: _ => (some Net.init, line)
+  | "case" :: _ => (some ⟨Net.init, []⟩, line)
   | toks => match st with
     | none => (st, "exception:bad-op")
-    | some n => match exec n toks with
+    | some d => match resolveRefs d toks with
       | none => (st, "exception:bad-op")
-      | some (r, n') => (some n', r ++ state n')
+      | some toks => match exec d.net toks with
+        | none => (st, "exception:bad-op")
+        | some (r, n') =>
+          let rets := match toks.head?, parseLit r with
+            | some op, some l => if isRelOp op then d.rets ++ [l] else d.rets
+            | _, _ => d.rets
+          (some ⟨n', rets⟩, r ++ state n')
 
 end Oratio.Driver.NetD
